@@ -42,6 +42,7 @@ type Budget struct {
 	Steps    int // interpreted instructions per path
 	Depth    int // call depth
 	MaxPaths int
+	Wall     time.Duration // wall-clock time per path (0: 90 s)
 }
 
 // Ctx is the state of one path.
@@ -64,6 +65,8 @@ type Ctx struct {
 	stack    []string
 
 	panics     []*panicState
+	started    time.Time     // wall-clock start of the path
+	wall       time.Duration // wall-clock limit of the path
 	globals    map[*ssa.Global]*Value
 	inited     map[*ssa.Package]bool
 	FS         *VFS
@@ -514,6 +517,9 @@ func (e *Engine) Explore(h Harness, o ExploreOpts) *ExploreStats {
 	if o.Budget.Steps == 0 {
 		o.Budget.Steps = 5_000_000
 	}
+	if o.Budget.Wall == 0 {
+		o.Budget.Wall = 90 * time.Second
+	}
 	if o.Budget.Depth == 0 {
 		o.Budget.Depth = 2000
 	}
@@ -608,6 +614,7 @@ func (e *Engine) runPath(h Harness, prefix []bool, solver *sym.Solver, budget Bu
 		FS: NewVFS(), Funcs: map[*ssa.Function]int{}, Data: map[string]interface{}{},
 		lenInfo: map[*sym.Term]lenMeta{},
 		dom:     map[*sym.Term]*[4]uint64{}, rel: map[*sym.Term]bool{}, tvars: map[*sym.Term][]*sym.Term{},
+		started: time.Now(), wall: budget.Wall,
 	}
 	solver.Begin()
 	res = &PathResult{}
@@ -716,4 +723,10 @@ func lastN(s []string, n int) []string {
 func (c *Ctx) ResetPackageState() {
 	c.globals = map[*ssa.Global]*Value{}
 	c.inited = map[*ssa.Package]bool{}
+}
+
+// WallExceeded reports whether the path has used more wall-clock time than a path may take (a symbolic loop of an
+// interpreted script can make single steps arbitrarily expensive, so step budgets alone do not bound a path).
+func (c *Ctx) WallExceeded() bool {
+	return c.wall > 0 && time.Since(c.started) > c.wall
 }
